@@ -72,4 +72,8 @@ def sibling_imports(qs):
         for u in p['uses']:
             if u['leading'] and u['prefix'] and u['prefix'][0] == 'core':
                 out.setdefault((q['file'], q['fn']), set()).add(u['name'])
+        # ... and its local bindings: `quote! { t.1 }` spliced into a template that binds `t` refers to that binding
+        for b in p['bound']:
+            if b[:1].islower() or b[:1] == '_':
+                out.setdefault((q['file'], q['fn']), set()).add(b)
     return out
